@@ -1024,7 +1024,22 @@ impl Drop for Lsp {
 
 /// One synchronisation with the real server on a workspace folder: returns the number of
 /// diagnostics published (over all URIs) before the first request was answered.
-fn lsp_diagnostics(dir: &TempDir) -> Result<u64, String> {
+/// What a client sees of the diagnostics: the last publication per URI.
+fn final_count(notes: &[Value]) -> u64 {
+    let mut last: std::collections::BTreeMap<String, u64> = Default::default();
+    for m in notes.iter().filter(|m| m["method"] == "textDocument/publishDiagnostics") {
+        let uri = m["params"]["uri"].as_str().unwrap_or("").to_owned();
+        last.insert(uri, m["params"]["diagnostics"].as_array().map_or(0, |a| a.len() as u64));
+    }
+    last.values().sum()
+}
+
+/// A session with the real server on a workspace folder. Returns the number of diagnostics a
+/// client sees (last publication per URI) (1) after the first request, (2) after main.oal was
+/// opened with its own text and a second request (a second evaluation of unchanged sources),
+/// and, when `delete` names a module file, (3) after that file was removed from disk,
+/// main.oal was changed to its own text again and a third request was answered.
+fn lsp_diagnostics(dir: &TempDir, main_text: &str, delete: Option<&str>) -> Result<(u64, u64, Option<u64>), String> {
     let mut lsp = Lsp::spawn().map_err(|e| format!("cannot spawn oal-lsp (set OAL_LSP): {e}"))?;
     let mut notes = Vec::new();
     let folder = format!("file://{}", dir.0.display());
@@ -1038,18 +1053,23 @@ fn lsp_diagnostics(dir: &TempDir) -> Result<u64, String> {
     )?;
     lsp.send(&json!({"jsonrpc": "2.0", "method": "initialized", "params": {}}))?;
     // The server refreshes and publishes diagnostics before it answers any request.
-    lsp.request(
-        2,
-        "textDocument/definition",
-        json!({"textDocument": {"uri": format!("{folder}/main.oal")}, "position": {"line": 0, "character": 0}}),
-        &mut notes,
-    )?;
-    let n = notes
-        .iter()
-        .filter(|m| m["method"] == "textDocument/publishDiagnostics")
-        .map(|m| m["params"]["diagnostics"].as_array().map_or(0, |a| a.len() as u64))
-        .sum();
-    Ok(n)
+    let def = |id: u64| (id, "textDocument/definition", json!({"textDocument": {"uri": format!("{folder}/main.oal")}, "position": {"line": 0, "character": 0}}));
+    let (id, m, p) = def(2);
+    lsp.request(id, m, p, &mut notes)?;
+    let first = final_count(&notes);
+    lsp.send(&json!({"jsonrpc": "2.0", "method": "textDocument/didOpen", "params": {"textDocument": {"uri": format!("{folder}/main.oal"), "languageId": "oal", "version": 1, "text": main_text}}}))?;
+    let (id, m, p) = def(3);
+    lsp.request(id, m, p, &mut notes)?;
+    let second = final_count(&notes);
+    let mut third = None;
+    if let Some(file) = delete {
+        std::fs::remove_file(dir.0.join(file)).map_err(|e| format!("harness: cannot remove {file}: {e}"))?;
+        lsp.send(&json!({"jsonrpc": "2.0", "method": "textDocument/didChange", "params": {"textDocument": {"uri": format!("{folder}/main.oal"), "version": 2}, "contentChanges": [{"text": main_text}]}}))?;
+        let (id, m, p) = def(4);
+        lsp.request(id, m, p, &mut notes)?;
+        third = Some(final_count(&notes));
+    }
+    Ok((first, second, third))
 }
 
 fn check_lsp_case(dir: &TempDir, p: &Program) -> Result<(&'static str, u64), Bad> {
@@ -1069,9 +1089,33 @@ fn check_lsp_case(dir: &TempDir, p: &Program) -> Result<(&'static str, u64), Bad
     let cli_failed = run.code != Some(0);
     let _ = std::fs::remove_file(dir.0.join("out.yaml"));
     // A silent server is tried a second time before it is reported (machine load).
-    let n = lsp_diagnostics(dir)
-        .or_else(|_| lsp_diagnostics(dir))
+    // An accepted program with an imported module: the module is deleted from disk in a third
+    // step (the CLI then fails on the missing import).
+    let delete: Option<String> = (!cli_failed && p.modules.len() > 1).then(|| p.modules[1].0.clone());
+    let main_text = p.modules[0].1.clone();
+    let session = |dir: &TempDir| {
+        dir.write_modules(p);
+        lsp_diagnostics(dir, &main_text, delete.as_deref())
+    };
+    let (n, n2, n3) = session(dir)
+        .or_else(|_| session(dir))
         .map_err(|e| bad("lsp", "oal-lsp", "the server does not answer".into(), format!("{what}: {e}")))?;
+    if (n > 0) != (n2 > 0) {
+        return Err(bad(
+            "frontends",
+            "oal-lsp",
+            format!("the diagnostics a client sees change after a second evaluation of unchanged sources ({})", p.class.name()),
+            format!("{what}: {n} diagnostics after the first request, {n2} after didOpen of main.oal with its own text"),
+        ));
+    }
+    if let Some(0) = n3 {
+        return Err(bad(
+            "frontends",
+            "oal-lsp",
+            "no diagnostic published after an imported module was removed from disk (the CLI reports the missing import)".into(),
+            format!("{what}: removed {:?}, re-sent main.oal, 0 diagnostics", delete),
+        ));
+    }
     if cli_failed && n == 0 {
         return Err(bad(
             "frontends",
@@ -1339,7 +1383,7 @@ impl Engine for C13 {
         }
     }
     fn rule(&self) -> String {
-        "programs: for success and each failure class {lexical, syntax, unbound, duplicate, kind-mismatch, infinite-type, bad-recursion, status-literal, annotation-yaml} hand-written fragments (declarations holding the error + the statements of main that use them; quick: the first 4 per class, thorough: all 4-9) in every embedding (quick: main, after valid code with multi-byte text, imported module, qualified import, CRLF, the error at the very end of a text without final newline; thorough also: before valid code, module with its own import, bottom of a diamond), plus 9 missing-import and 8 import-cycle programs on 1-3 modules; lexical and syntax fragments include ones whose residual tree is complete. Phase 1 places every program in its class with the libraries (module::load + compile + eval over an in-memory loader). Phase 2 runs the real oal-cli on program x {options only (cwd = sources), --conf only (cwd elsewhere), conf naming a wrong main and target overridden by options, non-existent main} x base {none, valid, not YAML, YAML but not an OpenAPI object, missing file} x target {absent, sentinel bytes}: exit status must be 0 exactly for an accepted program with a valid configuration and 1 otherwise (never a signal or another code); on 0 the target parses as openapiv3::OpenAPI and equals, as YAML values, the document of the in-process libraries on the same module URLs (Builder::with_base for the valid base); on 1 the target is byte-identical to what it was (or still absent), stderr is not empty and, for an error in the sources, carries `<url of the module the error is in>:<line>:<column>` with the line and column of the span the libraries attach to the error (for an import cycle: the url of any module of the program); for single-module sources without base oal_wasm::compile succeeds iff the CLI does and gives the same document up to hash-* names (they digest the module URL). Phase 4 starts one oal-lsp on two workspace folders holding every ordered pair of one single-module program per class: each folder gets >= 1 diagnostic iff its program is rejected. Phase 3 starts the real oal-lsp on the sources as a workspace folder with oal.toml, initialises, sends one request and counts the diagnostics published before its answer: >= 1 iff the CLI (options only, no base) fails. distinct = distinct (class, configuration, exit, first stderr line, document) observations. states = (program, configuration) pairs, transitions = process runs".into()
+        "programs: for success and each failure class {lexical, syntax, unbound, duplicate, kind-mismatch, infinite-type, bad-recursion, status-literal, annotation-yaml} hand-written fragments (declarations holding the error + the statements of main that use them; quick: the first 4 per class, thorough: all 4-9) in every embedding (quick: main, after valid code with multi-byte text, imported module, qualified import, CRLF, the error at the very end of a text without final newline; thorough also: before valid code, module with its own import, bottom of a diamond), plus 9 missing-import and 8 import-cycle programs on 1-3 modules; lexical and syntax fragments include ones whose residual tree is complete. Phase 1 places every program in its class with the libraries (module::load + compile + eval over an in-memory loader). Phase 2 runs the real oal-cli on program x {options only (cwd = sources), --conf only (cwd elsewhere), conf naming a wrong main and target overridden by options, non-existent main} x base {none, valid, not YAML, YAML but not an OpenAPI object, missing file} x target {absent, sentinel bytes}: exit status must be 0 exactly for an accepted program with a valid configuration and 1 otherwise (never a signal or another code); on 0 the target parses as openapiv3::OpenAPI and equals, as YAML values, the document of the in-process libraries on the same module URLs (Builder::with_base for the valid base); on 1 the target is byte-identical to what it was (or still absent), stderr is not empty and, for an error in the sources, carries `<url of the module the error is in>:<line>:<column>` with the line and column of the span the libraries attach to the error (for an import cycle: the url of any module of the program); for single-module sources without base oal_wasm::compile succeeds iff the CLI does and gives the same document up to hash-* names (they digest the module URL). Phase 4 starts one oal-lsp on two workspace folders holding every ordered pair of one single-module program per class: each folder gets >= 1 diagnostic iff its program is rejected. Phase 3 starts the real oal-lsp on the sources as a workspace folder with oal.toml, initialises, sends one request and counts the diagnostics a client sees (last publication per URI): >= 1 iff the CLI (options only, no base) fails; the same after main.oal is opened with its own text and a second request (a second evaluation of unchanged sources); and for an accepted program with imports >= 1 after the first imported module was removed from disk and main.oal re-sent. distinct = distinct (class, configuration, exit, first stderr line, document) observations. states = (program, configuration) pairs, transitions = process runs".into()
     }
     fn assumptions(&self) -> Vec<String> {
         vec![
